@@ -49,6 +49,9 @@ typedef struct rxv_string { const char* data; size_t size; } rxv_string;
 #define RXV_SWAP(a, b) do { __typeof__(a) rxv_tmp_ = (a); (a) = (b); (b) = rxv_tmp_; } while (0)
 #define RXV_MAX(a, b) ((a) > (b) ? (a) : (b))
 #define RXV_MIN(a, b) ((a) < (b) ? (a) : (b))
+#ifndef RXV_CAUGHT
+#define RXV_CAUGHT 0   /* with the default RXV_THROW (path ends) a handler is never entered */
+#endif
 #ifndef RXV_THROW
 /* ASSUME: an exceptional exit ends the path (properties are stated for normal returns) */
 #define RXV_THROW(what) do { __CPROVER_assume(0); } while (0)
@@ -115,6 +118,20 @@ def split_top(s, sep=","):
         elif ch in ")]}":
             d -= 1
         elif ch == sep and d == 0:
+            parts.append(s[last:i])
+            last = i + 1
+    parts.append(s[last:])
+    return parts
+
+
+def split_top_angle(s):
+    parts, d, last = [], 0, 0
+    for i, ch in enumerate(s):
+        if ch in "<([":
+            d += 1
+        elif ch in ">)]":
+            d -= 1
+        elif ch == "," and d == 0:
             parts.append(s[last:i])
             last = i + 1
     parts.append(s[last:])
@@ -307,6 +324,7 @@ class Translator:
         self.array_alias = {}
         self.memfn_types = set()
         self.type_alias = {}
+        self.template_alias = {}
 
     def fire(self, rule, n=1):
         if n:
@@ -422,7 +440,7 @@ class Translator:
         if re.match(r"static_assert\s*\(", m):
             self.fire("static_assert dropped")
             return "drop", "static_assert"
-        if re.match(r"template\s*<[^;{]*>\s*(class|struct)\s+[\w:<>, ]+;$", m) or re.match(r"template\s+(class|struct)\b", m):
+        if re.match(r"template\s*<[^;{]*>\s*(class|struct)\s+[\w:<>, ]+;$", m) or re.match(r"template\s+(?!<)", m):
             self.fire("explicit template instantiation dropped")
             return "drop", "template instantiation"
         mo = re.match(r"(?:static\s+)?constexpr\s+(.*?)\s*\b(\w+)\s*=\s*(.*);$", t, re.S)
@@ -447,6 +465,18 @@ class Translator:
                 self.fire("member-function-pointer alias -> function pointer with explicit self")
                 self.memfn_types.add(name)
                 return "text", "struct %s;\ntypedef %s (*%s)(struct %s* self%s);" % (mp.group(2), mp.group(1).strip(), name, mp.group(2), (", " + params) if params else "")
+            ta = re.match(r"(\w+)\s*<(.*)>\s*$", target, re.S)
+            if ta and "std::" not in target:
+                args = []
+                for a in split_top_angle(ta.group(2)):
+                    a = a.strip()
+                    a = {"true": "1", "false": "0"}.get(a, a)
+                    if not re.fullmatch(r"-?\d+", a):
+                        a = "RXV_T_" + re.sub(r"<.*>", "", a).strip()
+                    args.append(a)
+                self.template_alias[name] = (ta.group(1), args)
+                self.fire("alias of template instantiation recorded")
+                return "drop", "using %s (template instantiation; used by `new`)" % name
             if "std::" in target or "<" in target or "::*" in target:
                 self.fire("using alias dropped (std/template)")
                 self.dropped_types.add(name)
@@ -995,6 +1025,20 @@ class Translator:
         b = re.sub(r"\balignas\s*\((\w+)\)", r"__attribute__((aligned(\1)))", b)
         b = re.sub(r"\bconstexpr\b", "const", b)
         b = re.sub(r"\bthrow\s+[\w:]+\s*\(([^;]*)\)\s*;", lambda mo: (self.fire("throw"), "RXV_THROW(%s);" % mo.group(1))[1], b)
+        def new_expr(mo):
+            name = mo.group(1)
+            if name in self.template_alias:
+                cls, targs = self.template_alias[name]
+                self.fire("new of template-instantiation alias -> rxv_new_<Class>(template args, ctor args)")
+                rest = mo.group(2).strip()
+                return "rxv_new_%s(%s%s)" % (cls, ", ".join(targs), (", " + rest) if rest else "")
+            self.fire("new -> rxv_new_<Class>")
+            return "rxv_new_%s(%s)" % (name, mo.group(2))
+        b = re.sub(r"\bnew\s+(\w+)\s*\(([^;()]*)\)", new_expr, b)
+        b = re.sub(r"\bnew\s+(\w+)\s*(?=;)", lambda mo: (self.fire("new -> rxv_new_<Class>"), "rxv_new_%s()" % mo.group(1))[1], b)
+        b = re.sub(r"\bdelete\s+(\w+)\s*;", lambda mo: (self.fire("delete -> rxv_delete"), "rxv_delete(%s);" % mo.group(1))[1], b)
+        b = re.sub(r"\btry\s*\{", lambda mo: (self.fire("try block -> plain block"), "{")[1], b)
+        b = re.sub(r"\bcatch\s*\([^)]*\)\s*\{", lambda mo: (self.fire("catch -> if (RXV_CAUGHT)"), "if (RXV_CAUGHT) {")[1], b)
         # auto
         def auto_ref(mo):
             self.fire("auto&")
